@@ -66,6 +66,8 @@ struct ConnResult {
     reads: Vec<(usize, usize)>, // (asked, got)
     bytes: Vec<u8>,
     error: Option<String>,
+    /// milliseconds since the start of the scenario at which the last read returned
+    last_ms: u64,
 }
 
 #[derive(Clone, Copy, Debug, PartialEq, Eq)]
@@ -278,6 +280,7 @@ fn stream_scenario(env: &Env, k: u64, case: u64, rng: &mut rand::rngs::SmallRng,
                                             let mut sh = shared.lock().unwrap();
                                             sh.reads.push((if read_api == 2 { usize::MAX } else { n }, bytes.len()));
                                             sh.bytes.extend_from_slice(&bytes);
+                                            sh.last_ms = tokio::time::Instant::now().duration_since(t0).as_millis() as u64;
                                         }
                                         Err(e) => {
                                             res.error = Some(format!("read: {e:?}"));
@@ -495,6 +498,23 @@ fn stream_scenario(env: &Env, k: u64, case: u64, rng: &mut rand::rngs::SmallRng,
                 let acc: Vec<ConnResult> = accepted.lock().unwrap().iter().map(|a| a.lock().unwrap().clone()).collect();
                 let mine = acc.iter().find(|a| a.bytes.len() >= 4 && a.bytes[0..4] == p.id.to_be_bytes());
                 let how = if rt == Rt::Paused { "current_thread" } else { "multi_thread" };
+                // The multi-thread runs are on the real clock, and their time limit is a wall-clock watchdog, not
+                // a verdict: a run that was still making progress when the limit cut it off (a read returned on
+                // this connection - or, for a connection not seen yet, on any - during the last two seconds) is a
+                // slow run on a loaded machine and inconclusive. Only a connection on which nothing was read for
+                // the last two seconds and more is reported as stalled.
+                if rt != Rt::Paused {
+                    let last = match mine {
+                        Some(a) => a.last_ms,
+                        None => acc.iter().map(|a| a.last_ms).max().unwrap_or(0),
+                    };
+                    let end = elapsed.as_millis() as u64;
+                    if end.saturating_sub(last) < 2000 || (mine.is_none() && acc.is_empty() && end < 3000) {
+                        d.inconclusive += 1;
+                        d.tally("multi_thread_runs_cut_off_while_progressing", 1);
+                        return;
+                    }
+                }
                 match mine {
                     Some(a) => {
                         for (asked, got) in &a.reads {
